@@ -30,11 +30,14 @@ func SetHook(h *Hooks) { hook.Store(h) }
 // process). A mutex that outlives a bubble - a package-level one - starts every epoch unlocked
 // with a channel made inside the current bubble: channels of a finished bubble cannot be used
 // from another one, and whatever a dead bubble's parked goroutines still "hold" is gone with it.
+// Steps counts harness steps (returns of bubble.Wait / bubble.Advance); mc.Guard reads it to tell slow from stuck.
+var Steps atomic.Int64
+
 var Epoch atomic.Uint64
 
 type Mutex struct {
-	mu    sync.Mutex // guards ch and epoch; never held while waiting
-	ch    chan struct{}
+	mu      sync.Mutex // guards ch and epoch; never held while waiting
+	ch      chan struct{}
 	epoch   uint64
 	bubbled bool // ch was made inside a bubble
 	held    atomic.Bool
